@@ -115,6 +115,24 @@ running out of steps is a failure. -/
 def specOK (tbl : List Entry) (h : Bytes) (qt : Nat) (o : Out) : Bool :=
   allowedFrom tbl qt h (tbl.length + 1) h [] o
 
+/-! ### Prop-level vocabulary for the order-independence theorems -/
+
+/-- No two different, equally specific entries compete for a query of type
+`qt`: CNAME entries with the same pattern have the same answer, and wildcard
+address-kind entries with the same pattern that bear on `qt` have the same
+type and address.  (Identical duplicates are fine.) -/
+def TieFree (tbl : List Entry) (qt : Nat) : Prop :=
+  (∀ e ∈ tbl, ∀ f ∈ tbl, e.typ = .CNAME → f.typ = .CNAME → e.domain = f.domain →
+      e.answer = f.answer) ∧
+  (∀ e ∈ tbl, ∀ f ∈ tbl, e.typ ≠ .CNAME → f.typ ≠ .CNAME → isWildcard e.domain = true →
+      e.domain = f.domain → matchesQType e qt = true → matchesQType f qt = true →
+      e.typ = f.typ ∧ e.ip = f.ip)
+
+/-- Same decision; when rewritten, same canonical name and the same addresses
+up to order. -/
+def OutEquiv (a b : Out) : Prop :=
+  a.rewritten = b.rewritten ∧ (a.rewritten = true → a.canon = b.canon ∧ a.ips.Perm b.ips)
+
 /-- Narrow reason class for a failing case (stable token for known findings). -/
 def failClass (tbl : List Entry) (h : Bytes) (qt : Nat) (o : Out) : String :=
   if !(tbl.any (covers · h)) then "C06.unmatched-name-touched"
